@@ -509,8 +509,9 @@ def evaluate(ctx, jobs, results, tag):
                               {**case, "rule": ms["rule"], "more": ms["more"], "request": json_format.MessageToDict(msg, preserving_proto_field_name=True),
                                "observed": c["http"] if c["ok"] else c["error"]}, sig)
             # T2
-            if not A.in_model(ms) or c["family"] == "hostile":
-                continue
+            pvals = [O.get_path(msg, n) for bnd in binds for n in bnd["tmpl"]["vars"]]
+            if not A.in_model(ms) or c["family"] == "hostile" or any(isinstance(v, str) and set(v) & O.HOSTILE for v in pvals):
+                continue          # what `requests` does to '?', '#', '%XX' inside a path is not modelled: oracle only
             obs = observed_term(c)
             lbl = f"T2 #{idx}{'n' if numeric else ''} {c['method']}[{ci}]"
             if obs is None:
@@ -653,6 +654,27 @@ def run_witnesses(ctx):
     return jobs, results
 
 
+def run_corpus(ctx):
+    """corpus/C04/*.json: recorded (API, option, method, request) cases, grouped per API and driven first."""
+    d = os.path.join(env.VERIF, "corpus", "C04")
+    files = sorted(f for f in os.listdir(d) if f.endswith(".json")) if os.path.isdir(d) else []
+    groups = {}
+    for f in files:
+        c = json.load(open(os.path.join(d, f)))
+        groups.setdefault((c["request_b64"], bool(c.get("numeric"))), []).append(c)
+    jobs = []
+    for i, ((rb, numeric), cs) in enumerate(sorted(groups.items())):
+        fixed = {}
+        for c in cs:
+            fixed.setdefault(c["method"], []).append(c["msg_b64"])
+        jobs.append({"idx": 800 + i, "numeric": numeric, "req": apigen.req_from_b64(rb), "ncalls": max(len(v) for v in fixed.values()),
+                     "families": ["normal"], "fixed": fixed, "seed_tag": "corpus"})
+    if jobs:
+        results = gen.pmap(run_library, jobs)
+        evaluate(ctx, jobs, results, "corpus")
+    ctx.notes["corpus_cases"] = len(files)
+
+
 # ------------------------------------------------------------------ entry points
 def run(ctx):
     import time
@@ -665,6 +687,7 @@ def run(ctx):
     run_pure(ctx); lap("pure")
     run_contract(ctx, ctx.n(4, 60), ctx.n(6, 10)); lap("contract")
     run_witnesses(ctx); lap("witnesses")
+    run_corpus(ctx); lap("corpus")
     jobs = make_jobs(ctx, ctx.n(6, 150), ctx.n(6, 8))
     results = gen.pmap(run_library, jobs); lap("generate+drive")
     evaluate(ctx, jobs, results, "e2e"); lap("evaluate")
